@@ -814,6 +814,27 @@ def run(c):
         Pin = 2 * math.pi * math.sqrt(bodies[0][1] ** 3 / (G * m0))
         dtq = Pin / (rng.uniform(28, 40) if cf["integrator"] != "janus" else rng.uniform(100, 150))
         try:
+            if cf["integrator"] in ("ias15", "bs") and f["fam"] == 3:
+                # the adaptive schemes follow a near-collision of the close pair with 1e5..1e6 steps (legacy IAS15 step control: dt ~ 1e-8):
+                # that is the step-size-control regime (C01/C08), and minutes of wall time.  Scout the planned span (both directions:
+                # 'reverse' events) with default IAS15 and redraw the pair while its step falls below 1e-3 of the initial one.
+                for _redraw in range(6):
+                    near = False
+                    for sg_ in (1.0, -1.0):
+                        scs = build_sim(rebound, m0, bodies, G, boost, dict(integrator="ias15"), sg_ * dtq)
+                        for _k in range(8 * (3 * pstep + 12) // 8):
+                            scs.steps(1)
+                            if abs(scs.dt_last_done) < 1e-3 * dtq:
+                                near = True
+                                break
+                            if abs(scs.t) > (3 * pstep + 12) * dtq * 1.2:
+                                break
+                        if near:
+                            break
+                    if not near:
+                        break
+                    c.cov["pairwise_close_pair_redrawn_near_collision"] = c.cov.get("pairwise_close_pair_redrawn_near_collision", 0) + 1
+                    m0, bodies, G = gen_system(rng, f["fam"])
             sim = build_sim(rebound, m0, bodies, G, boost, cf, dtq)
             if f["dtsign"] == "-":
                 sim.dt = -sim.dt
